@@ -88,6 +88,7 @@ class Ev:
         self.pred = {}       # block id -> predecessor block id on this path
         self.choice = {}     # select inst id -> bool
         self.pins = {}       # inst id -> BV refined by a guard (survives cache flushes)
+        self.final = False   # evaluating `new` after all guards of the path are known
 
     def fork(self):
         e = Ev(self.ex, self.oldkey, self.w)
@@ -116,7 +117,12 @@ class Ev:
         if k == "i":
             iid = op[1]
             if ("i", iid) == self.oldkey:
-                return BV.old(self.w)
+                o = BV.old(self.w)
+                if self.final:
+                    r = o.subst_old(self.facts.k0, self.facts.k1)
+                    r.lin = 0
+                    return r
+                return o
             v = self.env.get(iid)
             if v is not None:
                 return v
@@ -609,6 +615,10 @@ class Extractor:
                 # evaluate selects feeding `new` path-sensitively: fork on selects whose condition involves old
                 for e2 in self.split_selects(ev, x.ops[2]):
                     t = Transition(x, "cas-loop", fl, w, x.d["ord"], x.d.get("ford"))
+                    if not e2.facts.normalize():
+                        continue
+                    e2.env = dict(e2.pins)
+                    e2.final = True
                     new = e2.ev(x.ops[2])
                     if new.w != w:
                         new = BV.unknown(w)
